@@ -4,7 +4,10 @@
    bytes; oracle aspects (i_..., degs, offs, ef) evaluate the property on what the
    implementation returned, correspondence aspects (rt, m_...) compare the model with it. *)
 open Model
+open Model.AccessM
 type string = Stdlib.String.t
+let max = Stdlib.max
+let min = Stdlib.min
 open Conv
 
 let paths = ["ra"; "ralen"; "outdeg"; "iter"; "iter_from"; "next_from"; "seq_iter"; "seq_iter_from";
